@@ -1,5 +1,5 @@
 #!/usr/bin/env python3
-"""./selftest/run.py [PATTERN...]  -- test the checkers both ways.
+"""./selftest/run.py [--thorough] [--no-clean] [PATTERN...] [-jN]  -- test the checkers both ways.
 
 1. every check must exit 0 on the unchanged tree (unless --no-clean);
 2. for every mutant patch selftest/mutants/<PID>-<RULE>-<desc>.diff: copy /repo's sources to a scratch
@@ -71,6 +71,11 @@ def main():
             good = r.returncode == 0 and "VIOLATION" not in r.stdout
             print("%s unchanged tree: %s" % (pid, "silent (exit 0)" if good else "FAILED exit %d\n%s" % (r.returncode, r.stdout[-600:])))
             ok = ok and good
+            if "--thorough" in sys.argv:
+                r = subprocess.run([os.path.join(VERIF, "check"), pid, "--tier", "thorough"], cwd=VERIF, stdout=subprocess.PIPE, stderr=subprocess.STDOUT, text=True)
+                good = r.returncode == 0 and "VIOLATION" not in r.stdout
+                print("%s unchanged tree, thorough tier: %s" % (pid, "silent (exit 0)" if good else "FAILED exit %d\n%s" % (r.returncode, r.stdout[-600:])))
+                ok = ok and good
     muts = sorted(glob.glob(os.path.join(VERIF, "selftest", "mutants", "*.diff")))
     if args:
         muts = [m for m in muts if any(a in os.path.basename(m) for a in args)]
